@@ -30,6 +30,15 @@ EXPENSIVE = ['standardize', 'enumerate_kekule', 'enumerate_tautomers', 'canonica
              'standardize_charges_log', 'fix_resonance_log', 'implicify_hydrogens_log', 'enumerate_charged_forms', 'mcs', 'split',
              'remove_metals_log', 'remove_acids_log', 'split_metal_salts_log']
 N_SMARTS = 44
+QRY_OBS = ['q_str', 'q_repr', 'q_atoms', 'q_bonds', 'q_len', 'q_match', 'q_match_all', 'q_match_fresh_copy', 'q_is_sub', 'q_copy_str']
+# queries as inputs (strings, copies, match lists with the memoised plan): the SMARTS panel of the worker plus forms with every
+# primitive the parser knows (D, h, r, !R, x, z, a, M, charge, isotope, mapping, stereo, bond lists, not-bonds, ring bonds, radicals)
+QUERY_SMARTS = ['[C;D3]', 'C=O', 'c1ccccc1', '[N;h2]', 'C(=O)O', '[#6]-[#7]', 'c:n', '[O;D1]', 'S(=O)=O', 'N-C=O', '[C;r5]', 'C~C~C',
+                '[N;a;h1]', '[#6,#7]-[#8]', '[C,N;D2]', '[#8,#16]=[#6]', '[#7,#8;h1]', '[F,Cl,Br]', '[A]C[A]N', '[A]1CN1', '[C,O]CN.[A]Cl',
+                '[C;r5,r6;a]-;!@[C;h1,h2;z2,z4]', '[C;D2,D3;x1,x2]-,=[O,N;D1]', '[N+;D4]', '[O-]-[C;z2]', '[C;!R]-[C;r3,r4,r5,r6]',
+                '[C:3]-[O:1]-[C:2]', '[C;h1:1](=O)-[N;D2,D3:2]', '[13C]', '[C;z1;h3]-[C;z2]=,:[C,N;z2]', 'C-;@C', 'C-,=;!@C', '[M]-Cl', '[M]~[O,N]',
+                '[C@H](N)(C)C(=O)O', 'C/C=C/C', 'C/C=C\\C', '[C;D1]-[C;D2]-[C;D1] |^1:1|', '[A;h0]=[A;h0]', '[Cl,Br,I;D1]-[C;z1]-[C;z1]-[Cl,Br,I;D1]',
+                '[S;D4](=O)(=O)(-N)-[C;a]', '[P]', '[O;h1]-[C;r6]-[C;r6]-[O;h1]', '[N;D1]#[C;D2]', '[C]=[C]-[C]=[O]', '[#6;a]:[#7;a;D3]', '[C,N,O;D3;r5]']
 EXTRA_SMILES = [
     'C[C@H](N)C(=O)O', 'C[C@@H](O)[C@H](O)C', 'C/C=C/C', 'C/C=C\\Cl', 'CC=[C@]=CCl', 'C[C@H]1CC[C@@H](C)CC1', 'C[C@H]1C[C@@H]1C',
     'C[C@H](O)[C@H](O)[C@@H](C)O', 'C/C=C/[C@H](O)/C=C\\C', 'O[C@H]1C[C@@H](O)C1', 'C[C@H]1C[C@H](C)C[C@H](C)C1',
@@ -103,6 +112,7 @@ def full_corpus():
             out += [['file', f, k] for k in range(n)]
         out += [['edit', s, k] for k, s in enumerate(EXTRA_SMILES[:30])]
         out += [['rxnsmi', s] for s in RXN_SMILES]
+        out += [['smarts', s] for s in QUERY_SMARTS]
         for f, n in (('ions.rdf', 1), ('reaction_centerslist.rdf', 2), ('standardize.rdf', 6)):
             out += [['rxnfile', f, k] for k in range(n)]
         _corpus_cache = out
@@ -112,7 +122,7 @@ def full_corpus():
 def draw_config(rng, k):
     hs = [0, 1][k] if k < 2 else rng.choice([0, 1, rng.randrange(1, 2 ** 32 - 1), rng.randrange(1, 2 ** 32 - 1)])
     return {'hashseed': hs, 'aslr': rng.random() < 0.7, 'junk': rng.choice([0, 0, 1, 1009, 100003]),
-            'gc': rng.choice(['on', 'on', 'off', 'low']), 'window': rng.choice([1, 2, 4, 8])}
+            'gc': rng.choice(['on', 'on', 'off', 'low']), 'window': rng.choice([1, 2, 4, 8]), 'tseed': rng.randrange(1 << 20)}
 
 
 def _dedupe(xs):
@@ -129,6 +139,25 @@ def make_events(rng, n_mols, tier, cfg, corpus=None):
     rng.shuffle(order)
     per = []
     for i in order:
+        if corpus is not None and corpus[i][0] == 'smarts':
+            names = list(QRY_OBS)
+            rng.shuffle(names)
+            ev = [['load', i]]
+            copy_first = rng.random() < 0.3
+            if copy_first:
+                ev.append(['copy', i])
+                ev += [['obs_copy', i, n, 'copy-first'] for n in names]
+            ev += [['obs', i, n, 'first'] for n in names]
+            ev += [['obs', i, n, 'again'] for n in rng.sample(names, 6)]
+            if rng.random() < 0.5:
+                ev.append(['flush', i])
+                ev += [['obs', i, n, 'after-flush'] for n in rng.sample(names, 6)]
+            if not copy_first:
+                ev.append(['copy', i])
+                ev += [['obs_copy', i, n, 'copy'] for n in names]
+            ev.append(['drop', i])
+            per.append(ev)
+            continue
         if corpus is not None and corpus[i][0] in ('rxnsmi', 'rxnfile'):
             names = list(RXN_OBS)
             rng.shuffle(names)
@@ -387,6 +416,7 @@ def _main(a, scratch):
     n = min(T['mols'], len(corpus_all))
     core_idx = [k for k, c in enumerate(corpus_all) if c[0] == 'smi' and c[1] in CORE_SMILES] + \
                [k for k, c in enumerate(corpus_all) if c[0] in ('rxnsmi',)][:6] + \
+               [k for k, c in enumerate(corpus_all) if c[0] == 'smarts'] + \
                [k for k, c in enumerate(corpus_all) if c[0] == 'rxnsmi' and (':11]' in c[1] or '[CH2]' in c[1] or '[CH3].' in c[1]
                                                                              or '[O]' in c[1] or '[CH]' in c[1] or '>N>' in c[1] or '[K+]' in c[1] or 'ClCCl' in c[1] or '@' in c[1] or '/' in c[1])]
     first = core_idx + [k for k in special[:n // 4] if k not in set(core_idx)]
